@@ -46,11 +46,19 @@ func altVars(c *Case) map[string]string {
 		case "monetary":
 			if sp := strings.LastIndex(v, " "); sp > 0 {
 				out[name] = v[:sp] + " " + fmt.Sprint(11+i)
+				if i%3 == 2 { // ... in the other asset
+					out[name] = otherAsset(v[:sp]) + " " + fmt.Sprint(11+i)
+				}
 			}
+		case "asset":
+			out[name] = otherAsset(v)
 		case "portion":
 			out[name] = []string{"0%", "1/1", "1/3"}[i%3]
 		case "account":
-			out[name] = []string{"world", "b", "c"}[i%3]
+			out[name] = []string{"b", "c", "world", "b"}[i%4] // (another funded account first: what is asked of the store changes with it)
+			if out[name] == v {
+				out[name] = "c"
+			}
 		case "string":
 			out[name] = v + "_"
 		default:
@@ -64,6 +72,13 @@ func altVars(c *Case) map[string]string {
 		return nil
 	}
 	return out
+}
+
+func otherAsset(a string) string {
+	if a == "USD" {
+		return "EUR/2"
+	}
+	return "USD"
 }
 
 // the case's variables with two of them (of different declared types) replaced by unreadable texts
@@ -237,6 +252,37 @@ func cmdConc(args []string) {
 			fam = append(fam, c)
 		})
 	}
+	// members of the ShapeFam.tla family "a variable in every syntactic position that can hold one" with inputs of the declared
+	// types: the re-use comparisons (other variable texts between two runs of one parsed script) reach every position
+	if fp := os.Getenv("VERIF_CONC_VARFAM"); fp != "" {
+		readLines(fp, func(b []byte) {
+			var g struct {
+				Vars    []any                        `json:"vars"`
+				Stmts   []any                        `json:"stmts"`
+				Bal     map[string]map[string]int64  `json:"bal"`
+				Meta    map[string]map[string]string `json:"meta"`
+				RawVars map[string]string            `json:"rawvars"`
+				VarVals map[string]J                 `json:"varvals"`
+			}
+			if err := json.Unmarshal(b, &g); err != nil {
+				die(2, "bad family line: %v", err)
+			}
+			normNums(g.Stmts)
+			normNums(g.Vars)
+			if g.Vars == nil {
+				g.Vars = []any{}
+			}
+			c := &Case{ID: n + len(fam), Corpus: "varfamily", Decls: g.Vars, Stmts: g.Stmts, VarVals: g.VarVals, RawVars: g.RawVars, Bal: g.Bal, Meta: g.Meta}
+			if c.RawVars == nil {
+				c.RawVars = map[string]string{}
+			}
+			if c.Meta == nil {
+				c.Meta = map[string]map[string]string{}
+			}
+			c.Text = printProgram(c.Decls, c.Stmts)
+			fam = append(fam, c)
+		})
+	}
 	for i := 0; i < n+len(fam); i++ {
 		var c *Case
 		if i >= n {
@@ -346,6 +392,14 @@ func cmdConc(args []string) {
 			again := runParsed(bg, p, copyVars(c.RawVars), fresh(), c.FlagOvd)
 			nruns += 4
 			line["reuse"] = J{"alt": alt, "wantAlt": outcomeJ(wantAlt), "gotAlt": outcomeJ(gotAlt), "first": outcomeJ(first), "again": outcomeJ(again)}
+			// ... the same against a store that answers exactly what it is asked (what a run asks for is decided by ITS variables)
+			exact := func() numscript.Store { return &scriptStore{bal: c.Bal, meta: c.Meta, modes: []string{"exact"}} }
+			wantAltX := runParsed(bg, numscript.Parse(c.Text), copyVars(alt), exact(), c.FlagOvd)
+			firstX := runParsed(bg, p, copyVars(c.RawVars), exact(), c.FlagOvd)
+			gotAltX := runParsed(bg, p, copyVars(alt), exact(), c.FlagOvd)
+			againX := runParsed(bg, p, copyVars(c.RawVars), exact(), c.FlagOvd)
+			nruns += 4
+			line["reusex"] = J{"alt": alt, "wantAlt": outcomeJ(wantAltX), "gotAlt": outcomeJ(gotAltX), "first": outcomeJ(firstX), "again": outcomeJ(againX)}
 		}
 		// ... and with two supplied variables unreadable at once (which one is reported must not depend on the
 		// iteration order of the caller's map)
